@@ -301,10 +301,14 @@ func (e *env) publish(c int, q uint32) {
 	if q <= before {
 		return
 	}
-	if !await(func() bool { return e.idCalls.Load() > idBefore && e.p.VerifUpdatesPending() == 0 }) {
+	if !await(func() bool { return e.p.VerifUpdatesPending() == 0 }) {
 		e.hung = fmt.Sprintf("update conn=%d seqno=%d not taken by Run", c, q)
 		return
 	}
+	// pacing hint: notifySubscribers asks the best member for its ID() while it holds RLock; once that call is seen
+	// the Status() below cannot slip in before the notification (a refactoring that no longer calls ID() only loses
+	// the hint, the observations decide)
+	waitUntil(20*time.Millisecond, func() bool { return e.idCalls.Load() > idBefore })
 	// Status() takes the write lock: it returns only after the notifySubscribers call that is in progress has finished
 	if !guarded(func() { e.p.Status() }) {
 		e.hung = fmt.Sprintf("Status() after update conn=%d seqno=%d", c, q)
@@ -715,7 +719,11 @@ func goAdvCancel(a []string) string {
 			return false
 		}
 		seq++
-		return await(func() bool { return e.idCalls.Load() > idBefore && e.p.VerifUpdatesPending() == 0 })
+		if !await(func() bool { return e.p.VerifUpdatesPending() == 0 }) {
+			return false
+		}
+		waitUntil(20*time.Millisecond, func() bool { return e.idCalls.Load() > idBefore })
+		return true
 	}
 	for r := 0; r < rounds && !w.returned.Load(); r++ {
 		reparked := false
